@@ -8,19 +8,19 @@ PROOF_NOTE = ("Trusted: Lean 4.33 kernel with axioms propext/Classical.choice/Qu
 
 CLAIMED = {
     "C01": dict(
-        text="Lean 4 model of the whole ScopeVisitor (scope stack, two-phase reads with captured-reference de-duplication, reference merging, hoisting, if/elseif/else scope juggling, loops, methods, varargs) and of undefined_variable, plus an independent environment-passing Lua 5.1 resolver as specification. Proved for all scope tables: every diagnostic sits on a recorded unresolved read of a non-library name (C01_lint_sound) and no identifier is reported twice (C01_once). The resolution equivalence `scope-stack model = Lua resolver for every chunk` is NOT yet a Lean theorem; it is checked three-way (implementation tables / model / resolver) on every fixture, corpus and generated program - this found the scoping defects now fixed in /repo.",
-        note=PROOF_NOTE + "Resolution equivalence is a Lean theorem for every chunk (C01_resolution: the scope-stack machine of Scope/Core.lean = the Lua 5.1 resolver of Scope/Spec.lean, as multisets of (read token, declaration)); the machine is compared with the real ScopeManager on every program (every recorded read with its binding). PARTIAL: the lint-level theorems are over the full ScopeVisitor model (Scope/Model.lean), which is tied to the implementation table-by-table by the run but not to Core by proof; full_moon parser and visitor order assumed (reproduced hook by hook, divergence = table mismatch); std enters through an oracle computed by the real code.",
-        technique="Lean 4 proof that the scope-stack resolution machine equals the environment-passing Lua resolver for all chunks (mutual structural induction, Rel/Pure/Grow invariants; permutation via List.count) + lint theorems over the scope tables + three-way correspondence: real ScopeManager tables / Lean ScopeVisitor model and resolution core / Lua resolver",
+        text="Machine-checked (Lean 4), for every chunk and every library predicate: the scope-stack machine of Scope/Core.lean (scope stack with `...` barriers, reference log, try_hoist with its rewrite of earlier unresolved reads, eager reads before closures, if/elseif scope juggling, loop variables, methods, varargs, declarations with `shadowed`, plain-name writes) computes exactly what Lua 5.1's scoping rules prescribe — C01_log / C01_resolution: its answers (every read with the local declaration it denotes, every declaration with what it shadows, every plain-name target that assigns a global) are, as multisets, those of the environment-passing resolver Spec.resolve written from the reference manual. On top: C01_sound — a token reported by undefined_variable over the machine's log is an expression-position occurrence that Lua binds to no local / parameter / loop variable / self, whose name the library does not supply, that is not `...` of the main chunk and that is not a global the file assigns (or defines with `function name`) in its outermost block; C01_complete — an occurrence bound to nothing, not supplied by the library and never assigned as a global anywhere in the file is reported at its token. Also C01_lint_sound / C01_once over all tables of the full ScopeVisitor model.",
+        note=PROOF_NOTE + "the machine is tied to /repo on every run: every read with its binding, every declaration with its `shadowed`, and the lint's output (undefinedReports vs the real undefined_variable diagnostics) are compared with the real ScopeManager / Checker on every program; the implementation is additionally judged by the resolver directly (three-way). Trusted/assumed: full_moon's parser and visitor order (reproduced hook by hook; a divergence shows as a table mismatch); the library enters as the predicate `hasFields` computed by the real code (its lookup is C06); `exactly once` is proved over the full model's tables (C01_once), token uniqueness being a property of the parser.",
+        technique='Lean 4 proof: scope-stack machine = environment-passing Lua resolver for all chunks (mutual structural induction with Rel/Pure/Grow, permutation via List.count), hoisting invariants carried through the same induction (Safe.lean: Inv/Good/Step), two-directional lint theorem C01_sound / C01_complete + three-way correspondence real ScopeManager & diagnostics / machine / resolver',
         design="§4 C01"),
     "C02": dict(
-        text="Lean 4 model of the whole ScopeVisitor (scope stack, two-phase reads with captured-reference de-duplication, reference merging, hoisting, if/elseif/else scope juggling, loops, methods, varargs) and of unused_variable (incl. the static-table / observes analysis), plus an independent environment-passing Lua 5.1 resolver as specification. Proved for all scope tables: a reported variable has no reference analysed as a read and is not ignored (C02_lint_sound, C02_read_protects, C02_plain_read). The resolution equivalence `scope-stack model = Lua resolver for every chunk` is NOT yet a Lean theorem; it is checked three-way (implementation tables / model / resolver) on every fixture, corpus and generated program - this found the scoping defects now fixed in /repo.",
-        note=PROOF_NOTE + "Resolution equivalence is a Lean theorem for every chunk (C01_resolution: the scope-stack machine of Scope/Core.lean = the Lua 5.1 resolver of Scope/Spec.lean, as multisets of (read token, declaration)); the machine is compared with the real ScopeManager on every program (every recorded read with its binding). PARTIAL: the lint-level theorems are over the full ScopeVisitor model (Scope/Model.lean), which is tied to the implementation table-by-table by the run but not to Core by proof; full_moon parser and visitor order assumed (reproduced hook by hook, divergence = table mismatch); std enters through an oracle computed by the real code.",
-        technique="Lean 4 proof that the scope-stack resolution machine equals the environment-passing Lua resolver for all chunks (mutual structural induction, Rel/Pure/Grow invariants; permutation via List.count) + lint theorems over the scope tables + three-way correspondence: real ScopeManager tables / Lean ScopeVisitor model and resolution core / Lua resolver",
+        text="Machine-checked (Lean 4), for every chunk: C02_used_iff — the scope-stack machine of Scope/Core.lean (scope stack with `...` barriers, reference log, try_hoist with its rewrite of earlier unresolved reads, eager reads before closures, if/elseif scope juggling, loop variables, methods, varargs, declarations with `shadowed`, plain-name writes) records a read resolving to a declaration iff Lua's scoping rules bind some expression-position occurrence to it (corollary of C01_log), so `no recorded read` is `never read`; for all scope tables of the full ScopeVisitor model: a reported variable has no reference analysed as a read, is not ignored and is not an ignorable self (C02_lint_sound, C02_read_protects, C02_plain_read).",
+        note=PROOF_NOTE + "PARTIAL, stated: the read/write classification of each reference (assignment targets, indexed targets, compound paths, the documented `observes: write` / static-table analysis) lives in the full model (Scope/Model.lean), which is compared table-by-table with the implementation on every run but is not tied to the machine by proof; the property's first sentence is false by design for the documented `observes: write` analysis (recorded finding). The three-way run judges the real diagnostics by the resolver (used-but-reported / unmentioned-not-reported clauses, also under non-default ignore patterns).",
+        technique='Lean 4 proof of resolution equivalence (read recorded <=> Lua binds an occurrence to the declaration) + lint theorems over the scope tables + three-way correspondence real ScopeManager tables & diagnostics / Lean ScopeVisitor model and machine / Lua resolver',
         design="§4 C02"),
     "C03": dict(
-        text="Lean 4 model of the whole ScopeVisitor (scope stack, two-phase reads with captured-reference de-duplication, reference merging, hoisting, if/elseif/else scope juggling, loops, methods, varargs) and of shadowing, plus an independent environment-passing Lua 5.1 resolver as specification. Proved for all scope tables: a diagnostic names a variable whose shadowed entry is a declared (non-hoisted) variable and points at it, and every such variable is reported unless ignored (C03_lint_sound, C03_lint_complete). The resolution equivalence `scope-stack model = Lua resolver for every chunk` is NOT yet a Lean theorem; it is checked three-way (implementation tables / model / resolver) on every fixture, corpus and generated program - this found the scoping defects now fixed in /repo.",
-        note=PROOF_NOTE + "Resolution equivalence is a Lean theorem for every chunk (C01_resolution: the scope-stack machine of Scope/Core.lean = the Lua 5.1 resolver of Scope/Spec.lean, as multisets of (read token, declaration)); the machine is compared with the real ScopeManager on every program (every recorded read with its binding). PARTIAL: the lint-level theorems are over the full ScopeVisitor model (Scope/Model.lean), which is tied to the implementation table-by-table by the run but not to Core by proof; full_moon parser and visitor order assumed (reproduced hook by hook, divergence = table mismatch); std enters through an oracle computed by the real code.",
-        technique="Lean 4 proof that the scope-stack resolution machine equals the environment-passing Lua resolver for all chunks (mutual structural induction, Rel/Pure/Grow invariants; permutation via List.count) + lint theorems over the scope tables + three-way correspondence: real ScopeManager tables / Lean ScopeVisitor model and resolution core / Lua resolver",
+        text="Machine-checked (Lean 4), for every chunk and every ignore predicate: C03_shadows — the scope-stack machine of Scope/Core.lean (scope stack with `...` barriers, reference log, try_hoist with its rewrite of earlier unresolved reads, eager reads before closures, if/elseif scope juggling, loop variables, methods, varargs, declarations with `shadowed`, plain-name writes) records for every declaration (local, parameter, loop variable, local function, implicit self) as `shadowed` exactly the local declaration that Lua's scoping rules make visible under the same name at that point (a global the file assigns is no declaration); C03_report_iff — the shadowing lint over the machine's log reports (declaration, earlier declaration) iff the resolver finds a visible same-name local there and the name is neither ignored nor `...`. Also C03_lint_sound / C03_lint_complete over all tables of the full model.",
+        note=PROOF_NOTE + "the machine's declaration log is compared with ScopeManager.variables[*].shadowed on every program; the real diagnostics are judged by the resolver (unsound / missed clauses, also with an ignore pattern matching nothing). The same-statement corner (`local x, x`) is recorded as selene reports it and flagged `sameStatement`; the check accepts either answer there.",
+        technique="Lean 4 proof: the machine's `shadowed` log = the resolver's visible same-name declaration for all chunks (same induction as C01, name filter as a parameter) + lint-level iff + three-way correspondence",
         design="§4 C03"),
     "C04": dict(
         text="Lean 4 models of the seventeen closed-form lints (every Visitor hook they implement, their numeral / escape / side-effect / parameter-count helpers) over the full Lua 5.1 syntax tree, and by-value specifications written from docs/src/lints (Doc.*), canonical-pattern specifications (Canon.*) and numeral semantics (exact rational thresholds for `denotes zero` / `<= 1`, escape decoding). Proved for all programs (no bound on size, nesting or context): per-lint soundness (a model diagnostic implies the documented condition, e.g. divide_by_zero_sound, suspicious_reverse_loop_sound, ifs_same_cond_sound, almost_swapped_sound, unbalanced lintAssignment_iff), canonical-pattern completeness under arbitrary enclosing contexts via traversal lemmas (every statement / expression of the tree is visited: *_canon theorems), by-value theorems for numerals (number_is_zero_by_value, *_by_value) and the fixed-defect witnesses; remaining partial statements (bad_string_escape general soundness, duplicate_keys under plainKeys, mismatched_arg_count lattice) are named in the property files.",
@@ -38,9 +38,9 @@ CLAIMED = {
         technique="Lean 4 refinement proof trie-walk = prefix specification (C06_find via fieldAt_insertSegs / fieldAt_fold / walkTree_eq) + correspondence with find_global and the lint",
         design="§4 C06"),
     "C07": dict(
-        text="Lean 4: every modelled library lint reaches the library only through the `resolved` flag of the use's first identifier: a call statement whose name is script-bound yields no must_use diagnostic and the diagnostics depend on the program only through the call statements and those flags (C07_must_use_inside, C07_must_use_outside); a locally bound root silences field access / assignment checks for every library and path (C07_access_inside). That `resolved` agrees with Lua's scoping is C01's pending resolution statement. Checked on the real code by 26 use snippets x 13 re-binding constructs placed inside, after, before and beside the binding's scope, each compared with a fresh-name twin.",
-        note=PROOF_NOTE + "PARTIAL: the deprecated and call-check lints are modelled up to their gate only; the gate itself (`resolved`) is what C01_resolution characterises for every chunk.",
-        technique="Lean 4 gate theorems over the scope/must_use/access models + binding-vs-fresh-name twin runs of the real Checker",
+        text="Lean 4: every modelled library lint reaches the library only through the `resolved` flag of the use's first identifier: a call statement whose name is script-bound yields no must_use diagnostic and the diagnostics depend on the program only through the call statements and those flags (C07_must_use_inside, C07_must_use_outside); a locally bound root silences field access / assignment checks for every library and path (C07_access_inside). That `resolved` is exactly `Lua binds the identifier to a local` is C01_log (proved for every chunk). Checked on the real code by 35 use snippets (bare, parenthesised and trivia-separated roots) x 13 re-binding constructs placed inside, after, before and beside the binding's scope, each compared with a fresh-name twin.",
+        note=PROOF_NOTE + "PARTIAL: the deprecated and call-check lints are modelled up to their gate only; how each lint finds the use's first identifier (name paths, reference_at_byte) is covered by the twin runs.",
+        technique='Lean 4 gate theorems over the scope/must_use/access models resting on the proved resolution equivalence + binding-vs-fresh-name twin runs of the real Checker',
         design="§4 C07"),
     "C08": dict(
         text="Lean 4 model of comment parsing, comment claiming and the push/pop filter machine with an independent specification (innermost covering filter wins, then the first accepted global filter, else unchanged). Proved: C08_machine — for every family of accepted filters whose inline members are the pre-order of a well-formed forest of code pieces (ranges nested or strictly apart, any depth and breadth, any number of filters per piece incl. zero-width pieces such as the end-of-file token, global filters interleaved anywhere) and every list of diagnostics, the machine never pops an empty stack and outputs exactly Spec.verdict for each diagnostic in order of position; C08_machine_checked (the same with the hypothesis as the executable check forestOf that the driver evaluates on the real get_filter_ranges output of every program); for all inputs laminar or not: C08_others_untouched, C08_no_filters, C08_most_recent_wins, C08_inner_shadows_outer; a decide-checked non-laminar counterexample shows the hypothesis is needed.",
@@ -73,9 +73,9 @@ CLAIMED = {
         technique="Lean 4 parametricity theorem for the modelled lints + program/trivia-twin differential runs of the real Checker in token space",
         design="§4 C13"),
     "C14": dict(
-        text="Lean 4: every name-keyed operation of the Lua resolver specification is an equality test that an injective renaming preserves (lookup_rename, lookup_rename_fresh, declare_rename); the full renaming-simulation theorem over the scope model is pending. Checked on the real code by linting each program and a twin whose script-introduced spellings are injectively renamed to fresh names (a quarter longer than 32 bytes), compared in token space with names mapped back in messages.",
-        note=PROOF_NOTE + "PARTIAL: simulation theorem pending; only purely local spellings are renamed (the property's side conditions), special names never.",
-        technique="Lean 4 lemmas (lookup commutes with injective renaming) + program/renamed-twin differential runs of the real Checker",
+        text="Machine-checked (Lean 4), for every chunk, every name filter and every injective renaming of identifiers that fixes `...` and `self` and keeps every name on its side of the filters (the property's ignore-pattern side condition): C14_log_invariant — the machine's whole log (every read with the declaration it denotes, every kept declaration with what it shadows, every global assignment) is identical for the renamed chunk; corollaries C14_resolution_invariant, C14_shadowing_invariant; lookup_rename / declare_rename for the source-order resolver. Checked on the real code by linting each program and twins whose script-introduced spellings — local names and field names — are injectively renamed to fresh names (a quarter longer than 32 bytes), over generated programs, the fixtures and a corpus of number-like / case-variant / keyword-like spellings.",
+        note=PROOF_NOTE + "PARTIAL: what the lints add on top of the resolution (library lookups by name, message texts, per-lint name comparisons such as duplicate_keys / mismatched_arg_count / almost_swapped) is where the property's side conditions come from; that part is decided by the twin runs.",
+        technique="Lean 4 proof of invariance of the resolution machine's log under filter-preserving injective renamings (30 mutual lemmas over the ordered specification + CoreProof.analyse_eq) + program/renamed-twin differential runs of the real Checker",
         design="§4 C14"),
     "C15": dict(
         text="Machine-checked proof (Lean 4) that the model of StandardLibrary::extend / base chains / `+` folds answers every key and lua_versions as the property states, for all libraries and chain lengths; the model is tied to the code by differential runs on generated pairs, chains and the shipped built-in chains.",
